@@ -276,14 +276,16 @@ var C03OpenFindings = []C03Finding{
 	{"C03-nested-aggregate", C03NestedAggregate},
 	{"C03-variable-rebound-with-other-role", C03VariableReboundWithOtherRole},
 	{"C03-path-used-as-entity", C03PathUsedAsEntity},
-	{"C03-string-predicate-on-id", C03StringPredicateOnID},
 	{"C03-property-of-scalar-alias", C03PropertyOfScalarAlias},
 	{"C03-alias-shadows-or-self-reference", C03AliasShadowsOrSelfReference},
 	{"C03-list-concatenation-cast-to-pseudo-type", C03ListConcatenationWithCollect},
 	{"C03-aggregate-in-where", C03AggregateInWhere},
 	{"C03-chained-null-test", C03ChainedNullTest},
-	{"C03-with-where-before-expansion", C03WithWhereBeforeExpansion},
 	{"C03-parenthesised-variable-lookup-before-with", C03ParenthesisedVariableLookupBeforeWith},
+	{"C03-entity-function-on-other-entity-kind", C03EntityFunctionOnOtherEntityKind},
+	{"C03-aggregate-combined-with-bare-variable", C03AggregateCombinedWithBareVariable},
+	{"C03-with-order-by-alias", C03WithOrderByAlias},
+	{"C03-windowed-with-leaves-constraints-pending", C03WindowedWithLeavesConstraintsPending},
 }
 
 // C03ExcludedBy returns the id of the first open finding whose shape the query has ("" = none).
@@ -894,7 +896,7 @@ func C03ExpansionConstraintSpansBindings(q *cypher.RegularQuery) bool {
 			}
 			for _, conj := range c03Conjuncts(c.Match.Where) {
 				vars := c03VariablesIn(conj)
-				if len(vars) < 2 {
+				if len(vars) < 3 {
 					continue
 				}
 				for v := range vars {
@@ -1316,38 +1318,12 @@ func C03PathUsedAsEntity(q *cypher.RegularQuery) bool {
 	})
 }
 
-// C03StringPredicateOnID: `id(n) ENDS WITH x` – the id is cast to text inside the call to cypher_ends_with / …,
-// and the reference inside the cast is not rewritten to the frame that materializes n (`(n0.id)::text` where only
-// `s0.n0` is in scope). Shape: STARTS WITH / ENDS WITH / CONTAINS with id(…) as an operand.
-func C03StringPredicateOnID(q *cypher.RegularQuery) bool {
-	return c03Contains(q, func(n any) bool {
-		cmp, ok := n.(*cypher.Comparison)
-		if !ok || cmp == nil {
-			return false
-		}
-		left := cmp.Left
-		for _, p := range cmp.Partials {
-			if p == nil {
-				continue
-			}
-			switch strings.ToLower(string(p.Operator)) {
-			case "starts with", "ends with", "contains":
-				if c03IsFunction(left, "id") || c03IsFunction(p.Right, "id") {
-					return true
-				}
-			}
-			left = p.Right
-		}
-		return false
-	})
-}
-
 // C03PropertyOfScalarAlias: `with 'a' as u … where u.name = …` – a property of a value that is not an entity.
 // DAWGS accepts it and emits `(s0.i0).properties` on a text / array column. Shape: a property lookup whose atom is
-// a variable that a WITH introduces as the alias of something other than a variable, or that an UNWIND introduces
+// a variable that a WITH introduces as the alias of something other than a variable, or that an UNWIND or a quantifier introduces
 // (likewise labels / id / type / a kind test applied to it).
 func C03PropertyOfScalarAlias(q *cypher.RegularQuery) bool {
-	scalars := map[string]bool{}
+	scalars, entityLists := map[string]bool{}, map[string]bool{}
 	C03WalkModel(q, func(n any, _ []any) bool {
 		switch t := n.(type) {
 		case *cypher.With:
@@ -1356,11 +1332,22 @@ func C03PropertyOfScalarAlias(q *cypher.RegularQuery) bool {
 					if pi, ok := it.(*cypher.ProjectionItem); ok && pi != nil && pi.Alias != nil {
 						if _, isVar := pi.Expression.(*cypher.Variable); !isVar {
 							scalars[pi.Alias.Symbol] = true
+							if c03IsFunction(pi.Expression, "collect") {
+								entityLists[pi.Alias.Symbol] = true
+							}
 						}
 					}
 				}
 			}
 		case *cypher.Unwind:
+			if t.Variable != nil {
+				// unwinding a variable yields scalars when the variable is the alias of a list that is not a collect(…)
+				if source, fromVariable := t.Expression.(*cypher.Variable); !fromVariable || source != nil && scalars[source.Symbol] && !entityLists[source.Symbol] {
+					scalars[t.Variable.Symbol] = true
+				}
+			}
+		case *cypher.IDInCollection:
+			// the variable of a quantifier / filter expression ranges over list elements
 			if t.Variable != nil {
 				if _, fromVariable := t.Expression.(*cypher.Variable); !fromVariable {
 					scalars[t.Variable.Symbol] = true
@@ -1540,36 +1527,6 @@ func C03ChainedNullTest(q *cypher.RegularQuery) bool {
 	return found
 }
 
-// C03WithWhereBeforeExpansion: the WHERE of a WITH is placed in the next query part, by whichever frame first
-// has the bindings it reads. When that part opens with a variable-length pattern the conjunct is attached to the
-// expansion (its seed, its terminal test or a pushed-down suffix), which is rendered with frame references that
-// are not in scope there. Shape: a WITH that has a WHERE and is followed by a query part whose first reading
-// clause is a MATCH with a variable-length relationship.
-func C03WithWhereBeforeExpansion(q *cypher.RegularQuery) bool {
-	cs := C03Clauses(q)
-	for i, c := range cs {
-		if c.With == nil || c.With.Where == nil {
-			continue
-		}
-		for j := i + 1; j < len(cs); j++ {
-			if cs[j].Part != c.Part+1 {
-				break
-			}
-			if cs[j].Match != nil {
-				if c03HasVariableLength(cs[j].Match.Pattern) {
-					return true
-				}
-				break
-			}
-			if cs[j].Kind == "unwind" {
-				continue
-			}
-			break
-		}
-	}
-	return false
-}
-
 // C03ParenthesisedVariableLookupBeforeWith: `where (n).name = 'a'` – the conjunct on a parenthesised variable is
 // only placed by the final select; a WITH in between that does not project n leaves `((n0)).properties` dangling.
 // Shape: a property lookup on a parenthesised expression in the WHERE of a MATCH whose query part ends in WITH.
@@ -1588,6 +1545,154 @@ func C03ParenthesisedVariableLookupBeforeWith(q *cypher.RegularQuery) bool {
 			return isParen
 		}) {
 			return true
+		}
+	}
+	return false
+}
+
+// C03EntityFunctionOnOtherEntityKind: type(n) of a node / labels(r) of a relationship. DAWGS accepts both and
+// selects the field of the other composite type: `(s0.n0).kind_id` on a nodecomposite, `(s0.e0).kind_ids` on an
+// edgecomposite (openCypher: type error). Shape: type() applied to a variable that some pattern declares as a
+// node, or labels() applied to one that some pattern declares as a relationship.
+func C03EntityFunctionOnOtherEntityKind(q *cypher.RegularQuery) bool {
+	nodes, rels := map[string]bool{}, map[string]bool{}
+	C03WalkModel(q, func(n any, _ []any) bool {
+		switch t := n.(type) {
+		case *cypher.NodePattern:
+			if t != nil && t.Variable != nil {
+				nodes[t.Variable.Symbol] = true
+			}
+		case *cypher.RelationshipPattern:
+			if t != nil && t.Variable != nil {
+				rels[t.Variable.Symbol] = true
+			}
+		}
+		return true
+	})
+	return c03Contains(q, func(n any) bool {
+		f, ok := n.(*cypher.FunctionInvocation)
+		if !ok || f == nil || len(f.Arguments) != 1 {
+			return false
+		}
+		v, isVar := f.Arguments[0].(*cypher.Variable)
+		if !isVar || v == nil {
+			return false
+		}
+		return c03IsFunction(f, "type") && nodes[v.Symbol] || c03IsFunction(f, "labels") && rels[v.Symbol]
+	})
+}
+
+// C03AggregateCombinedWithBareVariable: `return count(2) * n` – an aggregate and a bare variable in one projection
+// item. DAWGS derives grouping keys from property lookups and whole items, not from a bare variable inside an
+// expression that also holds an aggregate: the select has no GROUP BY for it. Shape: a projection item that is not
+// itself an aggregate call, contains one, and has a variable outside every aggregate that is not the atom of a
+// property lookup or the argument of a function.
+func C03AggregateCombinedWithBareVariable(q *cypher.RegularQuery) bool {
+	found := false
+	C03WalkModel(q, func(n any, _ []any) bool {
+		pi, ok := n.(*cypher.ProjectionItem)
+		if !ok || pi == nil || found {
+			return !found
+		}
+		if c03IsAggregate(pi.Expression) || !c03Contains(pi.Expression, c03IsAggregate) {
+			return true
+		}
+		if _, bare := pi.Expression.(*cypher.Variable); bare {
+			return true
+		}
+		C03WalkModel(pi.Expression, func(m any, anc []any) bool {
+			if c03IsAggregate(m) {
+				return false
+			}
+			if _, isVar := m.(*cypher.Variable); isVar && len(anc) > 0 {
+				switch anc[len(anc)-1].(type) {
+				case *cypher.PropertyLookup, *cypher.FunctionInvocation:
+				default:
+					found = true
+				}
+			}
+			return !found
+		})
+		return !found
+	})
+	return found
+}
+
+// C03WithOrderByAlias: since the ORDER BY of a WITH is emitted (fix 0d6bdc2) its sort keys are rendered on the
+// WITH's own select. A key that names an alias of that WITH is only right when it is the bare alias of a computed
+// item (`with n.name as a order by a` -> `order by i0`): the alias of a plain variable (`with a as b order by b`,
+// `with n as m order by m.name`) is rendered under a binding of its own that no select item carries, and an
+// expression over an alias (`order by v + 1`) names an output column inside an expression, which PostgreSQL does not
+// resolve. Shape: a WITH whose ORDER BY mentions one of the WITH's aliases other than as the bare alias of an item
+// that is not a plain variable.
+func C03WithOrderByAlias(q *cypher.RegularQuery) bool {
+	for _, c := range C03Clauses(q) {
+		if c.With == nil || c.With.Projection == nil || c.With.Projection.Order == nil {
+			continue
+		}
+		computed, aliases := map[string]bool{}, map[string]bool{}
+		for _, it := range c.With.Projection.Items {
+			if pi, ok := it.(*cypher.ProjectionItem); ok && pi != nil && pi.Alias != nil {
+				aliases[pi.Alias.Symbol] = true
+				if _, plain := pi.Expression.(*cypher.Variable); !plain {
+					computed[pi.Alias.Symbol] = true
+				}
+			}
+		}
+		for _, si := range c.With.Projection.Order.Items {
+			if si == nil {
+				continue
+			}
+			if v, bare := si.Expression.(*cypher.Variable); bare && v != nil {
+				if aliases[v.Symbol] && !computed[v.Symbol] {
+					return true
+				}
+				continue
+			}
+			for v := range c03VariablesIn(si.Expression) {
+				if aliases[v] {
+					return true
+				}
+			}
+		}
+	}
+	return false
+}
+
+// C03WindowedWithLeavesConstraintsPending: a WITH that carries SKIP or LIMIT no longer consumes any pending
+// constraint (fix 0d6bdc2 keeps its own WHERE above the window that way). Constraints that were already pending –
+// the pattern predicates of the part's MATCH clauses, the WHERE of the previous WITH when that reads one of its own
+// aliases – pass through as well and are placed by a later select, after the windowed WITH has cut off the
+// bindings they read (and after the window instead of before it: the C01 side of the same root cause). Shape: a
+// WITH with SKIP or LIMIT in a query part that has a pattern predicate in a MATCH WHERE or a shortest-path MATCH
+// with a WHERE, or that follows a WITH which has a WHERE.
+func C03WindowedWithLeavesConstraintsPending(q *cypher.RegularQuery) bool {
+	cs := C03Clauses(q)
+	for i, c := range cs {
+		if c.With == nil || c.With.Projection == nil || c.With.Projection.Skip == nil && c.With.Projection.Limit == nil {
+			continue
+		}
+		for j := i - 1; j >= 0; j-- {
+			if cs[j].Part == c.Part {
+				if cs[j].Match != nil && cs[j].Match.Where != nil {
+					if c03Contains(cs[j].Match.Where, c03IsPatternPredicate) {
+						return true
+					}
+					// the WHERE of a shortest-path MATCH that relates both endpoints cannot go into the harness
+					// statements and stays pending as well
+					for _, p := range cs[j].Match.Pattern {
+						if p != nil && (p.ShortestPathPattern || p.AllShortestPathsPattern) {
+							return true
+						}
+					}
+				}
+				continue
+			}
+			// the WITH that closes the previous query part
+			if cs[j].With != nil && cs[j].With.Where != nil {
+				return true
+			}
+			break
 		}
 	}
 	return false
